@@ -38,6 +38,10 @@ def jobs(tier):
         add(side="any", graph="gc-balanced-2", n=5, start=7, has_indel=True, heap_size=1, nvt=2)
         add(side="any", graph="mixed-2", n=4, start=0, has_indel=False, heap_size=1e9, nvt=0)
         add(side="any", graph="AC-1", n=5, start=0, has_indel=True, heap_size=1e9, nvt=1)
+        add(side="any", graph="chain-1", n=5, start=0, has_indel=False, heap_size=1e9, nvt=1)
+        add(side="any", graph="chain-1", n=4, start=1, has_indel=True, heap_size=1e9, nvt=2)
+        add(side="any", graph="gc-balanced-2", n=5, start=1, has_indel=False, heap_size=1e9, nvt=2)
+        add(side="any", graph="no-repeat-3", n=4, start=27, has_indel=False, heap_size=1e9, nvt=1)
         add(side="any", graph="no-repeat-3", n=4, start=6, has_indel=True, heap_size=1e9, nvt=2)
     else:
         for n in (1, 2, 3, 4, 5):
@@ -51,6 +55,8 @@ def jobs(tier):
             add(side="any", graph="complete-1", n=n, start=0, has_indel=True, heap_size=1e9, nvt=2)
         for n in (3, 5):
             add(side="any", graph="ACG-1", n=n, start=1, has_indel=True, heap_size=1, nvt=2)
+        for n in (3, 5, 6):
+            add(side="any", graph="chain-1", n=n, start=n % 3, has_indel=bool(n % 2), heap_size=1e9, nvt=1)
         for n in (4, 6, 7):
             for start, hs in ((1, 1e9), (7, 1)):
                 add(side="any", graph="gc-balanced-2", n=n, start=start, has_indel=True, heap_size=hs, nvt=2)
